@@ -4,6 +4,7 @@ import Grexv.Lemmas.ExprLang
 import Grexv.Lemmas.Contracts
 import Grexv.Lemmas.Quotient
 import Grexv.Lemmas.TrieAlphabet
+import Grexv.Lemmas.Pipeline
 import Grexv.Props.C13
 
 /-!
@@ -161,6 +162,80 @@ theorem pipeline_symbol_level_total (cfg : Config) (env : Env) (ws : List Str) (
   obtain ⟨m, hm, hacc⟩ := minimized_language_total cfg env ws hrep
   refine ⟨m, hm, fun hc2 w => ?_⟩
   rw [elimination_language cfg m hc2 w, ← accepts_iff_langFrom, hacc w]
+
+/-- **S6 exact (D1 as a theorem)** for every list of plain clusters the minimised trie accepts exactly the
+non-empty clusters — the empty test case is always lost by `recreate_graph`, nothing else is — and it has no cycle -/
+theorem minimize_trie_exact (cls : List Cluster) (hcls : ∀ cl ∈ cls, ∀ g ∈ cl, g.Simple) :
+    ∃ m, Dfa.minimize (Dfa.trie cls) Dfa.pickMin = some m ∧ (∀ w, m.Accepts w ↔ (w ∈ cls ∧ w ≠ [])) ∧
+      (∀ c w, Dfa.Path m c w c → w = []) :=
+  Dfa.minimize_trie_exact cls hcls
+
+/-- **S7 prerequisites proved, not checked** `states_in_depth_first_order` starts with the initial state, is
+closed under successors and is no longer than the number of states, for every automaton whose edges stay in range -/
+theorem dfs_order_ok (d : Dfa) (hinit : d.init < d.nodes) (hlt : ∀ e ∈ d.edges, e.dst < d.nodes) : DfsOK d d.dfs :=
+  dfsOK_of_bounded d hinit hlt
+
+/-- on an acyclic automaton the Kleene-star branch of the elimination loop is never taken -/
+theorem elimination_language_acyclic (cfg : Config) (d : Dfa) (hd : d.PlainLabels) (hN : 1 ≤ d.nodes) (hdfs : DfsOK d d.dfs)
+    (hacyc : ∀ c w, Dfa.Path d c w c → w = []) (w : Word) :
+    olang (((List.range d.nodes).reverse.foldl (elimStep cfg) (elimInit cfg d d.dfs)).b.get 0) w ↔ d.LangFrom d.init w :=
+  elimination_lang_acyclic cfg d hd hN hdfs hacyc w
+
+/-- **S2–S7 composed, no per-input contract** for every configuration without repetition conversion, every
+segmentation with non-empty pieces (the contract of the external `unicode-segmentation` parameter, which the
+driver checks) and every list of test cases: minimisation succeeds, and the expression computed from the
+minimised automaton denotes exactly the non-empty converted test cases.  What is left between this
+statement and the property is printing (S8/S9) and the reading of the printed text by the regex crate -/
+theorem pipeline_total (cfg : Config) (env : Env) (ws : List Str) (hrep : cfg.rep = false)
+    (hseg : ∀ w ∈ ws, ∀ p ∈ env.segOf w, p ≠ []) :
+    ∃ m, Dfa.minimize (Dfa.trie (graphemeClusters cfg env ws)) Dfa.pickMin = some m ∧
+      (∀ w, m.Accepts w ↔ (w ∈ graphemeClusters cfg env ws ∧ w ≠ [])) ∧
+      ∀ w : Word, olang (((List.range m.nodes).reverse.foldl (elimStep cfg) (elimInit cfg m m.dfs)).b.get 0) w ↔
+        (w ∈ graphemeClusters cfg env ws ∧ w ≠ []) :=
+  Grexv.pipeline_total cfg env ws hrep hseg
+
+/-- the model of `RegExp::from` never reports exhausted fuel: the refinement loop terminates for every input -/
+theorem from_never_out_of_fuel (cfg : Config) (env : Env) (ws : List Str) :
+    regExpFrom cfg env ws ≠ .error (.index "minimize: fuel") := by
+  obtain ⟨p, hp⟩ := Dfa.minimizePartition_some (Dfa.trie (graphemeClusters cfg env (sortCases (if cfg.ci then lowerCases env ws else ws))))
+  intro h
+  simp only [regExpFrom, Dfa.minimize, hp, Option.map_some] at h
+  repeat' split at h
+  all_goals try (cases h)
+  all_goals (rename_i hq; repeat' split at hq)
+  all_goals cases hq
+
+/-- every successful run of the model of `RegExp::from` has the stage structure the theorems above talk about -/
+theorem from_stages_shape (cfg : Config) (env : Env) (ws : List Str) (st : Stages) (h : regExpFrom cfg env ws = .ok st) :
+    st.sorted = sortCases (if cfg.ci then lowerCases env ws else ws) ∧
+    st.clusters = graphemeClusters cfg env st.sorted ∧ st.trie = Dfa.trie st.clusters ∧
+    Dfa.minimize st.trie Dfa.pickMin = some st.minimized ∧ st.firstAst = Expr.ofDfa cfg st.minimized := by
+  simp only [regExpFrom] at h
+  generalize (if cfg.ci = true then lowerCases env ws else ws) = ws1 at h ⊢
+  split at h
+  · cases h
+  · rename_i dmin hm
+    repeat' split at h
+    all_goals first
+      | (cases h; exact ⟨rfl, rfl, rfl, hm, rfl⟩)
+      | cases h
+
+/-- **the first candidate of `RegExp::from`, for all inputs without `-r`** whenever the model of `RegExp::from`
+succeeds, the automaton it minimised accepts exactly the non-empty converted test cases and the expression
+`Expression::from` computed from it (the first candidate, which is also the final one unless the self-check
+with both anchors off replaces it) is the `b[0]` of a system that denotes exactly that set -/
+theorem from_first_candidate (cfg : Config) (env : Env) (ws : List Str) (hrep : cfg.rep = false) (st : Stages)
+    (h : regExpFrom cfg env ws = .ok st) (hseg : ∀ w ∈ st.sorted, ∀ p ∈ env.segOf w, p ≠ []) :
+    (∀ w, st.minimized.Accepts w ↔ (w ∈ st.clusters ∧ w ≠ [])) ∧
+    ∀ w : Word, olang (((List.range st.minimized.nodes).reverse.foldl (elimStep cfg)
+        (elimInit cfg st.minimized st.minimized.dfs)).b.get 0) w ↔ (w ∈ st.clusters ∧ w ≠ []) := by
+  obtain ⟨h1, h2, h3, h4, h5⟩ := from_stages_shape cfg env ws st h
+  obtain ⟨m, hm, hacc, hlang⟩ := pipeline_total cfg env st.sorted hrep hseg
+  rw [← h2, ← h3, h4] at hm
+  simp only [Option.some.injEq] at hm
+  subst hm
+  rw [h2]
+  exact ⟨hacc, hlang⟩
 
 /-- and `Expression::from` returns that expression, or the empty literal when `b[0]` is `None` -/
 theorem ofDfa_is_b0 (cfg : Config) (d : Dfa) :
